@@ -139,6 +139,23 @@ Theorem C05_unroot_two_tips_refuted :
 Proof. exact unroot_two_tips_refuted. Qed.
 Print Assumptions C05_unroot_two_tips_refuted.
 
+(** exact degree of the new root: that of the root child kept as root *)
+Theorem C05_unroot_degree :
+  forall n0 c0 e1 n1 c1 sl1 e2 n2 c2 sl2,
+    wf (UNode n0 c0 [Some (e1, UNode n1 c1 sl1); Some (e2, UNode n2 c2 sl2)]) = true ->
+    degree (unroot (UNode n0 c0 [Some (e1, UNode n1 c1 sl1); Some (e2, UNode n2 c2 sl2)])) =
+    if Nat.eqb (length sl1) 1 then length sl2 else length sl1.
+Proof. exact unroot_degree. Qed.
+Print Assumptions C05_unroot_degree.
+
+(** so "at least three neighbours unless both root children are tips" needs [no_single]:
+    without it a single-child node may become a root with two neighbours *)
+Theorem C05_unroot_degree_refuted :
+  exists t, wf t = true /\ rooted t = true /\ root_has_inner_child t = true /\
+            Permutation (leaves (unroot t)) (leaves t) /\ degree (unroot t) = 2.
+Proof. exact unroot_degree_refuted. Qed.
+Print Assumptions C05_unroot_degree_refuted.
+
 (** * (c) RotateInternalNodes, SortNeighborsByTips *)
 
 (** trees equal up to the order of the neighbours of every node have the same observables *)
